@@ -317,6 +317,11 @@ func (ex *Exec) chanRecv(st *State, ch Term, t types.Type, commaOk bool, instr s
 	}
 	st.Heaps[chanHeap(elem, "recvd")] = Store(r, ch, Ite(okT, App(SLog, "lsnoc", Select(r, ch), ex.valToElem(st, v, t)), Select(r, ch)))
 	ex.recordWrite(chanHeap(elem, "recvd"), LHeap1, ch, ArrSort(SLog))
+	// drained(ch): the last receive attempt on ch found it empty (set by a select that fell
+	// through to its default, cleared by every successful receive)
+	dr := ex.heap(st, chanHeap(elem, "drained"), ArrSort(SBool))
+	st.Heaps[chanHeap(elem, "drained")] = Store(dr, ch, And(Select(dr, ch), Not(okT)))
+	ex.recordWrite(chanHeap(elem, "drained"), LHeap1, ch, ArrSort(SBool))
 	if instr != nil {
 		ex.effect(st, "blocking-recv", instr)
 	}
@@ -451,6 +456,15 @@ func (ex *Exec) selectInstr(st *State, frID int, in *ssa.Select, k func(*State, 
 	}
 	if !in.Blocking {
 		st2 := st.Clone()
+		st2.Trace = append(st2.Trace, "case:default")
+		for i, s := range in.States {
+			if s.Dir == types.RecvOnly {
+				et := s.Chan.Type().Underlying().(*types.Chan).Elem()
+				dr := ex.heap(st2, chanHeap(et, "drained"), ArrSort(SBool))
+				st2.Heaps[chanHeap(et, "drained")] = Store(dr, svs[i].ch, True)
+				ex.recordWrite(chanHeap(et, "drained"), LHeap1, svs[i].ch, ArrSort(SBool))
+			}
+		}
 		k(st2, mk(st2, -1, False, -1, nil))
 	} else {
 		ex.effect(st, "blocking-select", in)
